@@ -164,7 +164,24 @@ class C03(DecProp):
     def cases(self, tier, rng):
         return (core.gen_lines("inter", rng.randint(1, 10 ** 6), core.q(tier, 500, 8000))
                 + core.gen_lines("realsize", rng.randint(1, 10 ** 6), core.q(tier, 20, 400))
-                + core.gen_lines("noref", rng.randint(1, 10 ** 6), core.q(tier, 40, 600)))
+                + core.gen_lines("noref", rng.randint(1, 10 ** 6), core.q(tier, 40, 600))
+                + self.rejected_between(rng, core.gen_lines("inter", rng.randint(1, 10 ** 6), core.q(tier, 30, 600))))
+
+    @staticmethod
+    def rejected_between(rng, lines):
+        """I picture, a REJECTED I picture (cut short / corrupted), then the predicted pictures - one reader each: the
+        predicted pictures are predicted from the first I picture"""
+        out = []
+        for l in lines:
+            t = l.split(" ")
+            ops = t[2].split(";")
+            if len(ops) < 2:
+                continue
+            hx = ops[0][2:]
+            cut = hx[: 2 * rng.randint(8, max(9, len(hx) // 2 - 1))]
+            bad = cut if rng.random() < 0.6 else mutate(rng, hx)
+            out.append(f"P {t[1]} " + ";".join(["r:" + hx, "r:" + bad] + ["r:" + o[2:] for o in ops[1:]]))
+        return out
 
     def nontrivial(self, case, model_out):
         return len(re.findall(r"(^P|\|) ok ", model_out)) >= 2
@@ -250,6 +267,9 @@ class C05(DecProp):
             bad = "d:" + mutate(rng, ops[k][2:])
             ops2 = ops[:k] + [bad] + ops[k:]
             out.append(f"P {t[1]} " + ";".join(ops2))
+            # the same with every picture in a reader of its own: the pictures behind the rejected one are decoded (the line
+            # above leaves the reader in front of the rejected bytes), as if the failed call had never been made
+            out.append(f"P {t[1]} " + ";".join("r:" + o[2:] for o in ops2))
         # split deliveries
         self._splits = {}
         whole = core.gen_lines("intra", seed + 2, core.q(tier, 40, 200))
